@@ -286,7 +286,8 @@ class Module(metaclass=ModuleMeta):
         self.midi_out_channel = kw.get("midi_out_channel", 0)
         self.midi_out_bank = kw.get("midi_out_bank", -1)
         self.midi_out_program = kw.get("midi_out_program", -1)
-        self.name = kw.get("name", self.name)
+        name = kw.get("name")
+        self.name = self.name if name is None else name
         self.visualization = kw.get("visualization", 0x000C0101)
         self.in_links = []
         self.in_link_slots = []
